@@ -52,6 +52,87 @@ fn ss_case(s: &mut Session, rng: &mut Rng, cipher: &'static str, want_user: bool
     s.mark_nontrivial();
 }
 
+pub fn random_uuid(rng: &mut Rng) -> String {
+    let b = rng.bytes(16);
+    let h: String = b.iter().map(|x| format!("{:02x}", x)).collect();
+    format!("{}-{}-{}-{}-{}", &h[0..8], &h[8..12], &h[12..16], &h[16..20], &h[20..32])
+}
+
+fn check_dir(s: &mut Session, key: &str, d: &Delivered, plain: &[u8], want_addr: Option<&str>) -> bool {
+    if d.panic {
+        s.oracle_fail(&format!("{}-panic", key), "decoder panicked on a valid stream");
+        return false;
+    }
+    if d.err {
+        s.oracle_fail(&format!("{}-err", key), "decoder reported an error on a valid stream");
+        return false;
+    }
+    if let Some(a) = want_addr {
+        if d.connect.as_deref() != Some(a) {
+            s.oracle_fail(&format!("{}-addr", key), &format!("target {:?} instead of {}", d.connect, a));
+            return false;
+        }
+    }
+    if d.data != plain {
+        let what = if plain.starts_with(&d.data) { "stall: complete frames delivered to the adapter were not released" } else { "different plaintext" };
+        s.oracle_fail(&format!("{}-data", key), &format!("{} ({} of {} bytes)", what, d.data.len(), plain.len()));
+        return false;
+    }
+    true
+}
+
+fn vm_case(s: &mut Session, rng: &mut Rng, cipher: &'static str, style: u64, big: bool) {
+    s.begin_case(&format!("vmess:{}:cut{}", cipher, style));
+    let (c, sv) = (s.fresh("c"), s.fresh("s"));
+    let uuid = random_uuid(rng);
+    let other = random_uuid(rng);
+    // VMess domain names go through String::from_utf8 on the server: keep them ASCII
+    let addr = random_addr(rng);
+    s.run(&format!("vm.client {} uuid={} cipher={} cmd=tcp addr={}", c, uuid, cipher, addr));
+    let users = if rng.chance(1, 2) { format!("a:{};b:{}", other, uuid) } else { format!("a:{}", uuid) };
+    s.run(&format!("vm.server {} users={}", sv, users));
+    let writes = random_writes(rng, big);
+    let Some(wire) = encode_all(s, &c, &writes) else { return };
+    let pieces = cut(rng, &wire, 1, style);
+    let d = feed_all(s, &sv, &pieces, false);
+    if !check_dir(s, &format!("vmess-c2s:{}", cipher), &d, &writes.concat(), Some(&addr)) {
+        return;
+    }
+    let writes = random_writes(rng, big);
+    let Some(wire) = encode_all(s, &sv, &writes) else { return };
+    let pieces = cut(rng, &wire, 1, style);
+    let d = feed_all(s, &c, &pieces, true);
+    if !check_dir(s, &format!("vmess-s2c:{}", cipher), &d, &writes.concat(), None) {
+        return;
+    }
+    s.mark_nontrivial();
+}
+
+fn tj_case(s: &mut Session, rng: &mut Rng, style: u64, big: bool) {
+    s.begin_case(&format!("trojan:cut{}", style));
+    let (c, sv) = (s.fresh("c"), s.fresh("s"));
+    let len = rng.range(1, 30) as usize;
+    let pw: String = (0..len).map(|_| *rng.pick(b"abcdefghijklmnopqrstuvwxyz0123456789-_.") as char).collect();
+    let addr = random_addr(rng);
+    s.run(&format!("tj.client {} password={} cmd=tcp addr={}", c, pw, addr));
+    s.run(&format!("tj.server {} password={}", sv, pw));
+    let writes = random_writes(rng, big);
+    let Some(wire) = encode_all(s, &c, &writes) else { return };
+    let pieces = cut(rng, &wire, 1, style);
+    let d = feed_all(s, &sv, &pieces, false);
+    if !check_dir(s, "trojan-c2s", &d, &writes.concat(), Some(&addr)) {
+        return;
+    }
+    let writes = random_writes(rng, big);
+    let Some(wire) = encode_all(s, &sv, &writes) else { return };
+    let pieces = cut(rng, &wire, 1, style);
+    let d = feed_all(s, &c, &pieces, true);
+    if !check_dir(s, "trojan-s2c", &d, &writes.concat(), None) {
+        return;
+    }
+    s.mark_nontrivial();
+}
+
 pub fn generate(s: &mut Session, tier: &str, rng: &mut Rng) {
     let reps = if tier == "thorough" { 12 } else { 1 };
     for _ in 0..reps {
@@ -65,6 +146,13 @@ pub fn generate(s: &mut Session, tier: &str, rng: &mut Rng) {
                     ss_case(s, rng, cipher, want_user, style, style != 1 && style != 2 && tier == "thorough");
                 }
             }
+        }
+        for style in 0..5u64 {
+            let big = style != 1 && style != 2 && tier == "thorough";
+            for cipher in ["aes-128-gcm", "chacha20-poly1305", "aes-256-gcm"] {
+                vm_case(s, rng, cipher, style, big);
+            }
+            tj_case(s, rng, style, big);
         }
     }
 }
